@@ -141,6 +141,34 @@ def _has_wide_object(v):
     return False
 
 
+def _has_number(v):
+    if isinstance(v, dict):
+        return any(_has_number(x) for x in v.values())
+    if isinstance(v, list):
+        return any(_has_number(x) for x in v)
+    return jtype(v) == "number"
+
+
+def loose_eq(a, b):
+    """deep_eq, except that two strings are also equal when both are JSON texts of equal values
+    (used only for results that contain to_string of a number)"""
+    ta, tb = jtype(a), jtype(b)
+    if ta != tb:
+        return False
+    if ta == "string":
+        if a == b:
+            return True
+        try:
+            return deep_eq(json.loads(a), json.loads(b))
+        except ValueError:
+            return False
+    if ta == "array":
+        return len(a) == len(b) and all(loose_eq(x, y) for x, y in zip(a, b))
+    if ta == "object":
+        return a.keys() == b.keys() and all(loose_eq(a[k], b[k]) for k in a)
+    return a == b
+
+
 # ---------------------------------------------------------------------------- functions
 
 _NUM_RE = re.compile(r"-?(0|[1-9][0-9]*)(\.[0-9]+)?([eE][+-]?[0-9]+)?\Z")
@@ -455,6 +483,8 @@ class Interp(object):
             return x
         if _has_wide_object(x):
             self.flags.add("tostring_order")
+        if _has_number(x):
+            self.flags.add("tostring_number")   # "6" or "6.0": the JSON text of a number is not unique
         return json.dumps(x, separators=(",", ":"), sort_keys=True, ensure_ascii=False)
 
     def f_to_number(self, x):
